@@ -64,6 +64,9 @@ def iter_effects(effs, ctx=()):
             yield from iter_effects(e.body, ctx + ((e, None),))
 
 
+CMP_FLIP = {'Lt': 'Gt', 'Gt': 'Lt', 'LtE': 'GtE', 'GtE': 'LtE', 'Eq': 'Eq', 'NotEq': 'NotEq'}
+
+
 def is_term(v):
     return isinstance(v, tuple) and bool(v) and isinstance(v[0], str)
 
@@ -439,7 +442,11 @@ class Interp:
             parts = []
             for op, c in zip(n.ops, n.comparators):
                 right = self.ex(c, fr)
-                parts.append(CMP(type(op).__name__, left, right))
+                opn = type(op).__name__
+                if left[0] == 'const' and right[0] != 'const' and opn in CMP_FLIP:
+                    parts.append(CMP(CMP_FLIP[opn], right, left))       # canonical orientation: the literal on the right
+                else:
+                    parts.append(CMP(opn, left, right))
                 left = right
             return parts[0] if len(parts) == 1 else AND(*parts)
         if isinstance(n, ast.Tuple):
